@@ -1,6 +1,5 @@
-; requires: field
+; requires: field frpowdecl
 ; frpow(x,k) = x^k
-(declare-fun frpow (Fr Int) Fr)
 (assert (forall ((x Fr)) (! (= (frpow x 0) fr_one) :pattern ((frpow x 0)))))
 (assert (forall ((x Fr) (k Int)) (! (=> (>= k 0) (= (frpow x (+ k 1)) (fr_mul (frpow x k) x))) :pattern ((frpow x (+ k 1))))))
 ; the same equation read from the larger exponent, instantiated only when both powers are already present
